@@ -21,6 +21,8 @@ def drop(wt):
 def run_entry(m):
     wt = scratch()
     try:
+        if m.get("base") and subprocess.run(["git", "-C", wt, "apply", os.path.join(here, m["base"])], capture_output=True).returncode != 0:
+            return dict(name=m["name"], kind=m["kind"], outcome="skipped: base patch no longer applies")
         path = os.path.join(wt, m["file"]); src = open(path).read()
         if src.count(m["old"]) != 1:
             return dict(name=m["name"], kind=m["kind"], outcome="skipped: no longer applies")
@@ -43,12 +45,24 @@ def run_seeded(d):
     finally:
         drop(wt)
 
+def run_refactor(d):
+    wt = scratch()
+    try:
+        if subprocess.run(["git", "-C", wt, "apply", os.path.join(d, "patch.diff")], capture_output=True).returncode != 0:
+            return dict(name=os.path.basename(d), kind="refactor-corpus", outcome="skipped: patch no longer applies")
+        hit, rep = check(wt)
+        return dict(name=os.path.basename(d), kind="refactor-corpus", outcome="as expected" if not hit else "FALSE-ALARM", report=rep)
+    finally:
+        drop(wt)
+
 entries = [m for m in mod.M if m["prop"] in (prop, "*")]
+refactors = sorted(d for d in glob.glob(os.path.join(here, "refactors", "*")) if os.path.isfile(os.path.join(d, "patch.diff")))
 seeded = sorted(glob.glob(os.path.join(here, "seeded", prop + "-*")))
 res = []
 with concurrent.futures.ThreadPoolExecutor(max_workers=8) as ex:
     res += list(ex.map(run_entry, entries))
     res += list(ex.map(run_seeded, seeded))
+    res += list(ex.map(run_refactor, refactors))
 # cross-reference linters (never decide)
 xref = {}
 for name, cmd in (("go vet", ["go", "vet", "./..."]), ("staticcheck", ["staticcheck", "./..."]), ("errcheck -asserts", ["errcheck", "-asserts", "./..."])):
